@@ -274,6 +274,14 @@ class ReducedDensityMatrixPropagator(MatrixData, Saveable):
              or isinstance(rhoi, DensityMatrix)):
             raise Exception("First argument has be of"+
             " the ReducedDensityMatrix type")
+
+        #
+        # The rotating frame is tied to absolute time. The initial state is
+        # the state at the first point of the time axis; it is brought into
+        # the rotating frame there (no change if the axis starts at zero)
+        #
+        if self.Hamiltonian.has_rwa:
+            rhoi = self._initial_state_in_RWA(rhoi)
               
         #######################################################################
         #
@@ -551,6 +559,23 @@ class ReducedDensityMatrixPropagator(MatrixData, Saveable):
         rho2 = rhoi.data   
         
         return (pr, rho1, rho2)
+
+
+    def _initial_state_in_RWA(self, rhoi):
+        """Returns the initial state in the rotating frame
+
+        The frame rotates as exp(-i Omega t) with the absolute time t (this
+        is what `convert_from_RWA` undoes). A new object is returned, the
+        state submitted by the user is not changed.
+
+        """
+        t0 = self.TimeAxis.data[0]
+        if t0 == 0.0:
+            return rhoi
+        HOmega = self.Hamiltonian.get_RWA_skeleton()
+        Ut = numpy.diag(numpy.exp(1j*HOmega*t0))
+        return ReducedDensityMatrix(data=numpy.dot(Ut,
+                                    numpy.dot(rhoi.data, numpy.conj(Ut))))
 
 
     def _INIT_RWA(self):
